@@ -230,6 +230,9 @@ type TxnScenario struct {
 	End         string            `json:"end"` // commit | rollback
 	Net         NetCfg            `json:"net"`
 	MidReadMs   int               `json:"mid_read_ms,omitempty"` // >0: another client reads all keys this long after the transaction began
+	// FlushDelayMs > 0: the library's flush goroutine starts its work this long after Flush() returned (failpoint
+	// beforePipelinedFlush), so that the next program steps - or Rollback - run before the first Flush RPC leaves.
+	FlushDelayMs int `json:"flush_delay_ms,omitempty"`
 }
 
 var txnKeys = []string{"k1", "k2", "k3", "k4", "k5", "k6", "k7", "k8"}
@@ -384,7 +387,7 @@ func genTxn(cfg simkit.RunConfig, faulted bool) *Scenario {
 	}
 	sort.Strings(t.Splits)
 	// network
-	t.Net.JitterUs = []int{0, 500, 3000, 20000}[r.Intn(4)]
+	t.Net.JitterUs = []int{137, 500, 3000, 20000}[r.Intn(4)] // never 0: equal latencies make goroutines meet at the same fake instant
 	t.Net.Plan = map[string]simkit.Fate{}
 	kinds := retriedFaults
 	if faulted {
@@ -411,6 +414,9 @@ func genTxn(cfg simkit.RunConfig, faulted bool) *Scenario {
 	}
 	if r.Intn(4) == 0 {
 		t.MidReadMs = 1 + r.Intn(30)
+	}
+	if r.Intn(3) == 0 {
+		t.FlushDelayMs = []int{1, 3, 10, 40}[r.Intn(4)]
 	}
 	return &Scenario{Kind: "txn", Txn: t}
 }
